@@ -267,18 +267,111 @@ Proof.
 Qed.
 
 (* ------------------------------------------------------------------------------------------ the proof *)
-Lemma acost_FriProof : acost 25 (prealloc 255 SZ_2VEC) 0 a_FriProof.
+Lemma MAXP : 0 <= MAX_PREALLOC.
+Proof. unfold MAX_PREALLOC. lia. Qed.
+
+Lemma acost_many' {T} (r : A T) c b sz w n C : 0 <= c -> 0 <= b -> 0 <= sz -> GROW * sz <= b * w -> 1 <= w -> acost c 0 w r ->
+  c + b <= C -> acost C MAX_PREALLOC 0 (a_many r sz n).
 Proof.
-  unfold a_FriProof.
-  apply (acost_bind' 25 _ 0 0 (prealloc 255 SZ_2VEC) 0 0); try lia; try (pose proof (prealloc_bounds 255 SZ_2VEC ltac:(unfold SZ_2VEC; lia)); lia).
+  intros Hc Hb Hsz Hg Hw Hr HC. pose proof (prealloc_bounds n sz Hsz).
+  eapply acost_weaken; [| | |apply (acost_many r c b sz w n); auto]; lia.
+Qed.
+
+Lemma acost_FriProof : acost 25 MAX_PREALLOC 0 a_FriProof.
+Proof.
+  pose proof MAXP. unfold a_FriProof.
+  apply (acost_bind' 25 _ 0 0 MAX_PREALLOC 0 0); try lia.
   { apply acost_free'; try lia. eapply eats_weaken; [|apply eats_read_u8]; lia. }
   intros n.
-  apply (acost_bind' 25 _ 0 (prealloc 255 SZ_2VEC) 0 0 0); try lia; try (pose proof (prealloc_bounds 255 SZ_2VEC ltac:(unfold SZ_2VEC; lia)); lia).
-  { (* the layer count is one byte; whatever it is, the bounded pre-allocation is at most the one for 255 entries... *)
-    eapply acost_weaken; [| | |apply (acost_many a_FriProofLayer 1 24 SZ_2VEC 8 n); try (unfold GROW, SZ_2VEC; lia); apply acost_FriProofLayer].
-    - lia. - lia.
-    - unfold prealloc, SZ_2VEC, MAX_PREALLOC. change (65536 / Z.max 48 1) with 1365. change (Z.min (Z.max 255 0) 1365) with 255.
-      (* prealloc n 48 <= 255 * 48 needs n <= 255: handled by the caller (n is a byte) *)
-      admit. }
+  apply (acost_bind' 25 _ 0 MAX_PREALLOC 0 0 0); try lia.
+  { apply (acost_many' a_FriProofLayer 1 24 SZ_2VEC 8 n 25); try (unfold GROW, SZ_2VEC; lia). apply acost_FriProofLayer. }
   intros layers.
-Admitted.
+  apply (acost_bind' 25 _ 0 0 0 0 0); try lia.
+  { eapply acost_weaken; [| | |apply (acost_ablob 2)]; lia. }
+  intros r.
+  apply (acost_bind' 25 _ 0 0 0 0 0); try lia.
+  { apply acost_free'; try lia. eapply eats_weaken; [|apply eats_read_u8]; lia. }
+  intros np. apply acost_if; [apply acost_fail'; lia | apply acost_ret'; lia].
+Qed.
+
+Lemma acost_Context : acost 1 0 0 a_Context.
+Proof.
+  intros bs. unfold a_Context. pose proof (len_nonneg bs).
+  destruct (read_Context bs) as [[c rest]| |] eqn:E; cbn [fst snd].
+  - pose proof (eats_read_Context bs c rest E). lia.
+  - lia.
+  - lia.
+Qed.
+
+Definition K_PROOF : Z := MAX_PREALLOC + MAX_PREALLOC + 2 * SZ_2VEC.
+
+Lemma acost_Proof : acost 25 K_PROOF 0 a_Proof.
+Proof.
+  pose proof MAXP. unfold a_Proof, K_PROOF.
+  apply (acost_bind' 25 _ 0 0 (MAX_PREALLOC + MAX_PREALLOC + 2 * SZ_2VEC) 0 0); try (unfold SZ_2VEC; lia).
+  { eapply acost_weaken; [| | |apply acost_Context]; lia. }
+  intros c.
+  apply (acost_bind' 25 _ 0 0 (MAX_PREALLOC + MAX_PREALLOC + 2 * SZ_2VEC) 0 0); try (unfold SZ_2VEC; lia).
+  { apply acost_free'; try lia. eapply eats_weaken; [|apply eats_read_u8]; lia. }
+  intros nuq.
+  apply (acost_bind' 25 _ 0 0 (MAX_PREALLOC + MAX_PREALLOC + 2 * SZ_2VEC) 0 0); try (unfold SZ_2VEC; lia).
+  { eapply acost_weaken; [| | |apply (acost_ablob 2)]; lia. }
+  intros com.
+  apply (acost_bind' 25 _ 0 (2 * SZ_2VEC) (MAX_PREALLOC + MAX_PREALLOC) 0 0); try (unfold SZ_2VEC; lia).
+  { (* Vec::with_capacity(num_trace_segments) and the Queries read into it *)
+    intros bs.
+    pose proof (acost_many a_Queries 1 0 0 8 (ti_num_segments (ctx_trace_info c)) ltac:(lia) ltac:(lia) ltac:(lia)
+                  ltac:(unfold GROW; lia) ltac:(lia) acost_Queries bs) as Hq.
+    replace (prealloc (ti_num_segments (ctx_trace_info c)) 0) with 0 in Hq by (unfold prealloc; lia).
+    destruct (a_many a_Queries 0 (ti_num_segments (ctx_trace_info c)) bs) as [m x]. cbn [fst snd] in *.
+    destruct Hq as [Hm Hq]. split; [unfold SZ_2VEC; lia|].
+    pose proof (len_nonneg bs).
+    destruct x as [[l rest]| |]; [destruct Hq; split|..]; unfold SZ_2VEC; nia. }
+  intros tq.
+  apply (acost_bind' 25 _ 0 0 (MAX_PREALLOC + MAX_PREALLOC) 0 0); try lia.
+  { eapply acost_weaken; [| | |apply acost_Queries]; lia. }
+  intros cq.
+  apply (acost_bind' 25 _ 0 0 (MAX_PREALLOC + MAX_PREALLOC) 0 0); try lia.
+  { eapply acost_weaken; [| | |apply acost_OodFrame]; lia. }
+  intros ood.
+  apply (acost_bind' 25 _ 0 MAX_PREALLOC MAX_PREALLOC 0 0); try lia.
+  { apply acost_FriProof. }
+  intros fri.
+  apply (acost_bind' 25 _ 0 0 MAX_PREALLOC 0 0); try lia.
+  { apply acost_free'; try lia. eapply eats_weaken; [|apply (eats_read_uint 8)]; lia. }
+  intros nonce.
+  apply (acost_bind' 25 _ 0 MAX_PREALLOC 0 0 0); try lia.
+  { apply (acost_bind' 25 _ 0 0 MAX_PREALLOC 0 0); try lia.
+    { apply acost_free'; try lia. eapply eats_weaken; [|apply eats_read_bool]; lia. }
+    intros tag. apply acost_if; [|apply acost_ret'; lia].
+    apply (acost_bind' 25 _ 0 0 MAX_PREALLOC 0 0); try lia.
+    { apply acost_free'; try lia. apply eats_read_usize. }
+    intros n.
+    apply (acost_bind' 25 _ 0 MAX_PREALLOC 0 0 0); try lia.
+    { apply (acost_many' (afree read_u8) 0 4 1 1 n 25); try (unfold GROW; lia).
+      apply acost_free; [lia | apply eats_read_u8]. }
+    intros v. apply acost_ret'; lia. }
+  intros gkr. apply acost_ret'; lia.
+Qed.
+
+(* total capacity requested while parsing <= 25 * |bytes| + 131680, for every byte string *)
+Theorem parse_alloc_bounded : forall bs, 0 <= parse_alloc bs <= alloc_bound (len bs).
+Proof.
+  intros bs. unfold parse_alloc, alloc_bound. pose proof (acost_Proof bs) as H.
+  destruct (a_Proof bs) as [n x]. cbn [fst snd] in H. destruct H as [Hn H].
+  pose proof (len_nonneg bs). unfold K_PROOF, ERR_MSG, MAX_PREALLOC, SZ_2VEC in *.
+  destruct x as [[p rest]| |].
+  - destruct H as [_ H]. pose proof (len_nonneg rest). lia.
+  - lia.
+  - lia.
+Qed.
+
+Example alloc_bound_constants : forall n, alloc_bound n = 25 * n + 131680.
+Proof. intros n. unfold alloc_bound, MAX_PREALLOC, SZ_2VEC, ERR_MSG. lia. Qed.
+
+(* the accounting is not trivially zero: a hostile gkr length of 2^60 is charged the bounded pre-allocation only *)
+Example parse_alloc_hostile_length :
+  parse_alloc ([1; 0; 0; 3; 0; 0] ++ [8] ++ to_le_bytes 8 M64 ++ [1; 2; 0; 1; 2; 0] ++ [0] ++ [0; 0] ++
+               [0; 0; 0; 0; 0; 0; 0; 0] ++ [0; 0; 0; 0; 0; 0; 0; 0] ++ [0; 0; 0; 0; 0; 0] ++ [0; 0; 0; 0] ++
+               [0; 0; 0; 0; 0; 0; 0; 0] ++ [1; 0; 0; 0; 0; 0; 0; 0; 0; 16]) = 21 + 96 + 65536 + 512.
+Proof. vm_compute. reflexivity. Qed.
